@@ -438,6 +438,14 @@ def upd_tags(t):
     name = t[1]
     if name == "const":
         d = {unhx(k): opt_str(v) for k, v in t[2:]}
+        if len(repr(t)) % 2:
+            # the other common style: edit the mapping that was handed over and return it (merging it back
+            # changes the same keys)
+            def edit(old, d=d):
+                old.update(d)
+                return old
+
+            return edit
         return lambda old, d=d: dict(d)
     if name == "copykey":
         a, b = unhx(t[2]), unhx(t[3])
@@ -464,6 +472,12 @@ def upd_fields(t):
     name = t[1]
     if name == "const":
         d = {unhx(k): parse_num(v) for k, v in t[2:]}
+        if len(repr(t)) % 2:
+            def edit(old, d=d):
+                old.update(d)
+                return old
+
+            return edit
         return lambda old, d=d: dict(d)
     if name == "inc":
         a = unhx(t[2])
